@@ -5,7 +5,7 @@ from fractions import Fraction
 import vlib, fock
 
 CLAIM = {
- "text": "Proof (Lean 4), partial: N and S_z are modelled as the term lists the code builds (spin-orbital index selection per ordering); proved for every number of orbitals, both orderings and every determinant: a sum of c_p a_p^dagger a_p multiplies the amplitude of a determinant by the sum of c_p over its occupied spin-orbitals, hence N has eigenvalue (number of electrons) and S_z has eigenvalue (n_up - n_down)/2 on every Slater determinant (through the C03 intertwining the same holds for the Jordan-Wigner encoded operators); a penalty mu (O - t)^2 with mu > 0 is non-negative on every eigenvector and vanishes exactly when the eigenvalue equals the target. NOT proved in Lean: the structure of S^2 (eigenfunctions, commutation), commutation with molecular Hamiltonians, the other encodings, and conservation by the ansaetze - all evaluated by the numerical oracle: dense Fock-space matrices against an independent construction of N, S_z, S^2 = S_z^2 + (S+S- + S-S+)/2, commutators with random molecular Hamiltonians, penalty spectra and kernels, encoded spectra, and <N>, <N^2>, <S_z>, <S_z^2> on ansatz states at random parameters (variance zero).",
+ "text": "Proof (Lean 4), partial: N and S_z are modelled as the term lists the code builds (spin-orbital index selection per ordering); proved for every number of orbitals, both orderings and every determinant: a sum of c_p a_p^dagger a_p multiplies the amplitude of a determinant by the sum of c_p over its occupied spin-orbitals, hence N has eigenvalue (number of electrons) and S_z has eigenvalue (n_up - n_down)/2 on every Slater determinant (through the C03 intertwining the same holds for the Jordan-Wigner encoded operators); a penalty mu (O - t)^2 with mu > 0 is non-negative on every eigenvector and vanishes exactly when the eigenvalue equals the target. Commutation is proved too: a diagonal operator whose weight is additive over the occupied modes obeys the shift relations D a+_p = a+_p (D + g_p), D a_q = a_q (D - g_q), hence commutes with every ladder string whose increments cancel and, by linearity, with every operator made of such strings - N with every number-conserving Hamiltonian, S_z with every Hamiltonian whose terms conserve the spin projection (any coefficients, any number of terms, every register size); the increments of N are computed (1 on each of the 2 n_orbs spin-orbitals). NOT proved in Lean: the structure of S^2 (eigenfunctions, commutation), that the integrals of a particular molecule vanish for non-conserving terms, the other encodings, and conservation by the ansaetze - all evaluated by the numerical oracle: dense Fock-space matrices against an independent construction of N, S_z, S^2 = S_z^2 + (S+S- + S-S+)/2, commutators with random molecular Hamiltonians, penalty spectra and kernels, encoded spectra, and <N>, <N^2>, <S_z>, <S_z^2> on ansatz states at random parameters (variance zero).",
  "note": "Trusted: Lean kernel + standard axioms; openfermion normal_ordered; numpy; cirq (ansatz states); PySCF (molecules for the ansaetze).",
  "technique": "Lean 4 eigenvalue theorems for the diagonal symmetry operators and penalty arithmetic + dense-matrix oracle + ansatz-state conservation oracle"}
 
